@@ -464,6 +464,15 @@ class Machine:
             key = (fr, e.get('loc'), e.get('callee') or canon(e.get('fnexpr')))
             if key in self.callres:
                 return self.callres[key]
+            if e.get('callee') == 'iv_list_empty' and len(e.get('args', [])) == 1:
+                # no call event has produced this value: the core writes an open-coded emptiness test (`h->next == h`,
+                # `X.next != &X`) as a call expression of the list predicate.  It is a pure function of memory: evaluate it
+                # where it stands, through the run's model of the predicate if there is one, else by its definition
+                hv = self.rvalue(e['args'][0], fr)
+                h = self.env.get('iv_list_empty')
+                if h is not None:
+                    return h(self, 'iv_list_empty', [hv], e.get('loc'))
+                return self.binop('==', self.read(_obj_loc(self, hv) + (('f', 'next'),), e.get('loc')), hv)
             return self.fresh(e.get('callee') or 'call')
         if k == 'un':
             v = self.rvalue(e['e'], fr)
